@@ -8,9 +8,15 @@
 #define C08_SPLIT_H
 #include "stubs/C08_str.h"
 
+/* VERIF_SMALL: sizes restricted so that a counterexample can be found on the loop-unwound code and replayed natively */
+#ifdef VERIF_SMALL
+#define SMALL_REQ(c) __CPROVER_requires(c)
+#else
+#define SMALL_REQ(c)
+#endif
 #define SRC_REQ(s) __CPROVER_requires(__CPROVER_is_fresh(s, sizeof(vstr))) \
                    __CPROVER_requires((s)->cap <= VSTR_MAXCAP && (s)->size <= (s)->cap) \
-                   __CPROVER_requires(__CPROVER_is_fresh((s)->data, (s)->cap))
+                   __CPROVER_requires(__CPROVER_is_fresh((s)->data, (s)->cap)) SMALL_REQ((s)->cap <= 6)
 #define OUT_REQ(ret) __CPROVER_requires(__CPROVER_is_fresh(ret, sizeof(vout))) __CPROVER_requires((ret)->size == 0)
 #define VEC_REQ(ret) __CPROVER_requires(__CPROVER_is_fresh(ret, sizeof(vvec))) __CPROVER_requires((ret)->size == 0)
 
@@ -21,7 +27,7 @@ void split(vvec* ret, const vstr* s, char delim, size_t max_splits)
 VEC_REQ(ret) SRC_REQ(s)
 __CPROVER_requires(verif_exc == 0 && g_pj < VSTR_MAXCAP)
 __CPROVER_ensures(verif_exc == 0)
-__CPROVER_ensures(ret->size >= 1)
+__CPROVER_ensures(ret->size >= 1 && ret->size - 1 <= s->size)
 __CPROVER_ensures(max_splits != 0 ==> ret->size - 1 <= max_splits)
 __CPROVER_ensures(g_pj < ret->size ==> (g_pstart <= s->size && g_plen <= s->size - g_pstart))
 __CPROVER_ensures(g_pj == 0 ==> g_pstart == 0)
@@ -35,10 +41,10 @@ __CPROVER_assigns(verif_exc, ret->size, g_pstart, g_plen, g_nstart);
  * result, g_joff2 = offset of piece g_pj + 1 ---------------------------------------------------------------------------- */
 extern size_t g_joff, g_joff2;
 #define ITEMS_REQ(items) __CPROVER_requires(__CPROVER_is_fresh(items, sizeof(vsvec))) \
-                         __CPROVER_requires((items)->n <= VSVEC_MAXN) \
+                         __CPROVER_requires((items)->n <= VSVEC_MAXN) SMALL_REQ((items)->n <= 3) \
                          __CPROVER_requires(__CPROVER_is_fresh((items)->v, (items)->n * sizeof(vslice))) \
                          __CPROVER_requires(__CPROVER_is_fresh((items)->src, sizeof(vstr))) \
-                         __CPROVER_requires((items)->src->cap <= VSTR_MAXCAP && (items)->src->size <= (items)->src->cap) \
+                         __CPROVER_requires((items)->src->cap <= VSTR_MAXCAP && (items)->src->size <= (items)->src->cap) SMALL_REQ((items)->src->cap <= 6) \
                          __CPROVER_requires(__CPROVER_is_fresh((items)->src->data, (items)->src->cap))
 /* the ghost piece's slice and the backing bytes as ghost scalars (ghost value idiom): fixed by JOIN_GHOST_REQ */
 extern size_t g_pjs, g_pjl, g_srcsize; extern const char* g_srcd;
